@@ -150,7 +150,8 @@ public:
         if (options.patch_file_path.empty() || options.patch_file_path == "-") {
             m_patch_file = File::create_temporary(stdin);
         } else {
-            std::ios::openmode mode = std::ios::in | std::ios::out;
+            // The patch is only ever read from.
+            std::ios::openmode mode = std::ios::in;
             if (options.newline_output != Options::NewlineOutput::Native)
                 mode |= std::ios::binary;
 
@@ -561,7 +562,8 @@ int process_patch(const Options& options)
         }
 
         File input_file;
-        input_file.open(file_to_patch, mode | std::ios_base::in);
+        // The file to patch is only ever read from, the result is written out separately.
+        input_file.open(file_to_patch, (mode & std::ios::binary) | std::ios_base::in);
         if (!input_file && (errno != ENOENT || !is_adding_file(patch, options)))
             throw std::system_error(errno, std::generic_category(), "Unable to open input file " + file_to_patch);
 
